@@ -32,6 +32,9 @@ func (o *Oblig) query(withModel bool) string { return o.queryOpt(withModel, fals
 // queryOpt: relaxed leaves out the benign background axioms (see declAxiom); a "sat"
 // answer to a relaxed query is only a candidate that must be confirmed by replay.
 func (o *Oblig) queryOpt(withModel, relaxed bool) string {
+	if o.RawQuery != "" {
+		return o.RawQuery
+	}
 	vc := o.vc
 	var sb strings.Builder
 	sb.WriteString("(set-option :produce-models true)\n")
@@ -227,28 +230,40 @@ func (s *Solver) Solve(o *Oblig) *SolveResult {
 		name, st, raw string
 		dur           float64
 	}
-	ch := make(chan ans, len(solvers))
-	for _, sp := range solvers {
-		sp := sp
-		go func() {
-			to := s.timeoutS
-			if o.Expect == "sat" && to > 4 {
-				to = 4
-			}
-			st, raw, d := runSolver(ctx, sp, file, to)
-			ch <- ans{sp.name, st, raw, d}
-		}()
-	}
 	var definite []ans
-	for i := 0; i < len(solvers); i++ {
-		a := <-ch
-		res.AllRaw[a.name] = a.raw
-		if a.st == "unsat" || a.st == "sat" {
-			definite = append(definite, a)
-			if !s.thorough {
-				cancel()
-				break
+	// quick tier: an obligation nobody decides within the time limit gets one more round with
+	// three times the limit before it is reported (wall-clock limits are unreliable on a
+	// loaded machine; a timeout is not a refutation)
+	rounds := []int{s.timeoutS}
+	if !s.thorough && o.Expect != "sat" {
+		rounds = append(rounds, 3*s.timeoutS)
+	}
+	for _, limit := range rounds {
+		ch := make(chan ans, len(solvers))
+		for _, sp := range solvers {
+			sp := sp
+			to := limit
+			go func() {
+				if o.Expect == "sat" && to > 4 {
+					to = 4
+				}
+				st, raw, d := runSolver(ctx, sp, file, to)
+				ch <- ans{sp.name, st, raw, d}
+			}()
+		}
+		for i := 0; i < len(solvers); i++ {
+			a := <-ch
+			res.AllRaw[a.name] = a.raw
+			if a.st == "unsat" || a.st == "sat" {
+				definite = append(definite, a)
+				if !s.thorough {
+					cancel()
+					break
+				}
 			}
+		}
+		if len(definite) > 0 {
+			break
 		}
 	}
 	res.TimeS = time.Since(start).Seconds()
